@@ -96,4 +96,43 @@ theorem exactly_one_iff_supported :
 example : felixValue felixTable (some [101, 110, 97, 98, 108, 101, 100]) = [69, 110, 97, 98, 108, 101, 100] := by decide
 example : bgpEff bgpTable (some [101, 110, 97, 98, 108, 101, 100]) = bgpDefaultName bgpTable := by decide
 
+/-! ## Felix's dataplane consumers of the two booleans -/
+
+/-- For every stored setting (any string), every combination of pools present and of the unrelated
+switches: for a pool class that is present, Felix's dataplane (manager started ∧ routes handed to the
+route manager, guards regenerated from ipip_mgr.go / int_dataplane.go) programs the class exactly when
+the config-level decision `felixPrograms` says so, and whenever it does the L3 route resolver that
+feeds the managers is wired in. -/
+theorem felix_consumers_agree (v : Str) (ps : Pools) (vx6 bpf wg wg6 : Bool) (c : PoolClass)
+    (hc : ps.has c = true) :
+    felixDataplanePrograms guards (felixEnv felixTable v ps vx6 bpf wg wg6) c =
+      felixPrograms felixTable v c.modes.1 c.modes.2 ∧
+    (felixDataplanePrograms guards (felixEnv felixTable v ps vx6 bpf wg wg6) c = true →
+      guards.resolver (felixEnv felixTable v ps vx6 bpf wg wg6) = true) := by
+  obtain ⟨pi, pv, pn⟩ := ps
+  revert hc
+  simp only [felixEnv, felixDataplanePrograms, felixPrograms, guards]
+  generalize felixIPIP felixTable v = b1
+  generalize felixNoEncap felixTable v = b2
+  cases c <;> cases b1 <;> cases b2 <;> cases pi <;> cases pv <;> cases pn <;> cases vx6 <;>
+    cases bpf <;> cases wg <;> cases wg6 <;> decide
+
+/-- **End to end.**  Supported effective pairing ⇒ for every pool class present, exactly one of
+Felix's dataplane and BIRD's kernel filter programs its cluster routes; VXLAN is Felix's. -/
+theorem exactly_one_owner_dataplane (fv bv : Option Str)
+    (hsup : (felixValue felixTable fv, bgpEff bgpTable bv) ∈ supportedPairs)
+    (ps : Pools) (vx6 bpf wg wg6 : Bool) (c : PoolClass) (hc : ps.has c = true) :
+    felixDataplanePrograms guards (felixEnv felixTable (felixValue felixTable fv) ps vx6 bpf wg wg6) c ≠
+      birdPrograms (bgpPolicy bgpTable bv) c.modes.1 c.modes.2 ∧
+    (c = .vxlan → felixDataplanePrograms guards (felixEnv felixTable (felixValue felixTable fv) ps vx6 bpf wg wg6) c = true) := by
+  have h1 := (felix_consumers_agree (felixValue felixTable fv) ps vx6 bpf wg wg6 c hc).1
+  have h2 := exactly_one_owner fv bv hsup c.modes.1 c.modes.2
+  rw [h1]
+  refine ⟨h2.1, ?_⟩
+  rintro rfl
+  exact (h2.2 (by decide)).1
+
+example : felixDataplanePrograms guards (felixEnv felixTable felixTable.dflt ⟨true, false, true⟩ false false false false) .ipip = true ∧
+    felixDataplanePrograms guards (felixEnv felixTable felixTable.dflt ⟨true, false, true⟩ false false false false) .noEncap = false := by decide
+
 end CalicoVerif.C28
